@@ -34,6 +34,8 @@ structure Script where
   onReducedSl : Option Rat := none
   liquidateAt : Option Nat := none
   gate : Option Nat := none            -- entries only while the last candle of this timeframe (minutes) closed up
+  withdrawTpAt : Option Nat := none    -- `self.take_profit = []` in update_position at this index
+  withdrawSlAt : Option Nat := none    -- `self.stop_loss = []`
 deriving Repr, Inhabited
 
 structure Mem where
@@ -104,6 +106,8 @@ def scripted (scripts : List Script) : UserStrategy Mem :=
                      takeProfit := match (sc r).updTp with | some x => some [(absR p.qty, price + sign * x)] | none => d.takeProfit }
           else d
         | none => d
+      let d1 := if (sc r).withdrawTpAt = some (idxOf e r) then { d1 with takeProfit := some [] } else d1
+      let d1 := if (sc r).withdrawSlAt = some (idxOf e r) then { d1 with stopLoss := some [] } else d1
       let d2 := if (sc r).liquidateAt = some (idxOf e r) then
           (if p.pnl > 0 then { d1 with takeProfit := some [(p.qty, price)] } else { d1 with stopLoss := some [(p.qty, price)] })
         else d1
@@ -170,8 +174,10 @@ def scriptP : P Script := do
   let rsl ← optRatP
   let liq ← optNatP
   let gate ← optNatP
+  let wtp ← optNatP
+  let wsl ← optNatP
   pure { long := long, short := short, cancelAfter := ca, onOpenSl := osl, onOpenTp := otp, updEvery := ue,
-         updSl := usl, updTp := utp, onReducedSl := rsl, liquidateAt := liq, gate := gate }
+         updSl := usl, updTp := utp, onReducedSl := rsl, liquidateAt := liq, gate := gate, withdrawTpAt := wtp, withdrawSlAt := wsl }
 
 def candleP : P Candle := do
   let t ← ratP; let o ← ratP; let c ← ratP; let h ← ratP; let l ← ratP; let v ← ratP
